@@ -425,6 +425,9 @@ func moveOutFile(w *bytes.Buffer, param *syntax.StructMember,
 		_, err := w.Write(nullBytes)
 		return err
 	}
+	// A directory may be named with a trailing separator, which neither
+	// the link back to it nor its parent directory can be derived from.
+	filePath = filepath.Clean(filePath)
 	// If file doesn't exist (e.g. stage just didn't create it)
 	// then report null
 	if info, err := os.Lstat(filePath); os.IsNotExist(err) {
